@@ -146,6 +146,8 @@ class CommandsCache(cabc.Mapping):
         self._cmds_cache: dict[str, tuple[str, bool | None]] = {}
 
         self._alias_checksum: int | None = None
+        # the $PATH directories (in order) the commands map was built from
+        self._paths_order: tuple[str, ...] | None = None
         self.threadable_predictors = default_threadable_predictors()
 
         # Path to the cache-file where all commands/aliases are cached for pre-loading"""
@@ -214,7 +216,12 @@ class CommandsCache(cabc.Mapping):
         """
         is_aliases_change = self._update_aliases_cache()
         is_paths_change = self._update_paths_cache(paths)
-        return is_aliases_change or is_paths_change
+        # The merged commands map also depends on which directories are in
+        # $PATH and in what order: removing or reordering entries changes the
+        # result even though no directory was modified.
+        is_order_change = paths != self._paths_order
+        self._paths_order = paths
+        return is_aliases_change or is_paths_change or is_order_change
 
     @property
     def all_commands(self):
